@@ -85,6 +85,7 @@ type Service struct {
 	isRunning  atomic.Bool
 	isFinished atomic.Bool
 	isStarted  atomic.Bool
+	isStarting atomic.Bool
 	doStart    sync.Once
 	cancel     context.CancelFunc
 	ec         erc.Collector
@@ -114,6 +115,7 @@ func (s *Service) Start(ctx context.Context) error {
 	verifhook.At("srv.Service.Start.checked")
 	s.doStart.Do(func() {
 		started = true
+		s.isStarting.Store(true)
 		s.isRunning.Store(true)
 		defer s.isStarted.Store(true)
 		ec := &s.ec
@@ -220,7 +222,15 @@ func (s *Service) waitFor(ctx context.Context) error {
 	}
 
 	if !s.isStarted.Load() {
-		return fmt.Errorf("%s: %w", s.String(), ErrServiceNotStarted)
+		if !s.isStarting.Load() {
+			return fmt.Errorf("%s: %w", s.String(), ErrServiceNotStarted)
+		}
+		// a Start call is in flight: it has begun to start the
+		// service (which counts as running already) but has
+		// not launched all of its goroutines yet. Wait until
+		// that call is through before waiting for the service
+		// itself.
+		s.doStart.Do(func() {})
 	}
 
 	s.wg.Wait(ctx)
